@@ -1124,7 +1124,7 @@ func main() {
 		r := gen.FromEnv(1515)
 		for i := 0; i < n; i++ {
 			rr := r.Fork()
-			cf := Conf{PtPer: rr.Range(1, 2), NoInc: rr.Chance(1, 4), NoClean: rr.Chance(1, 3)}
+			cf := Conf{PtPer: rr.Range(1, 2), NoInc: rr.Chance(1, 4), NoClean: rr.Chance(1, 3), Expand: rr.Chance(1, 2)}
 			_ = enc.Encode(runModelCase(fmt.Sprintf("mgen-%d", i), cf, rr.Range(10, 36), rr, nil))
 		}
 		return
